@@ -173,6 +173,9 @@ def g_bytes(rng, lo=0, hi=255, n=None):
         n = rng.choice(OCT_LEN)
         if rng.chance(1, 10):
             n = rng.range(lo, max(lo, min(hi, 300)))
+        if hi >= 65535 and rng.chance(1, 150):
+            # the far end of a 16-bit length (and one short of it); sign bit of a 16-bit length
+            n = rng.choice([65535, 65534, 32768, 32767, 256])
     n = max(lo, min(hi, n))
     mode = rng.below(4)
     if mode == 0:
@@ -377,6 +380,12 @@ u8, u16, u32, u48 = U(8), U(16), U(32), U(48)
 c8, c16, rest = B(0, 255), B(0, 65535), B()
 
 
+# (type, attribute) pairs whose constructor takes text as well as octets (`_as_bytes(value, True, …)`)
+ENC_STR = {(257, "tag"), (13, "cpu"), (13, "os"), (20, "address"), (20, "subaddress"), (19, "address"), (35, "flags"),
+           (35, "service"), (35, "regexp"), (50, "salt"), (50, "next"), (51, "salt"), (27, "latitude"), (27, "longitude"),
+           (27, "altitude"), (44, "fingerprint"), (256, "target")}
+
+
 def alt_route(k, v, i):
     """the same field value handed to the constructor in another accepted form (bytearray, text, ipaddress object,
     a single string instead of a sequence); `None` = no other form"""
@@ -435,6 +444,11 @@ class Spec:
         kw, changed = {}, False
         for i, ((a, k), v) in enumerate(zip(self.fields, vals)):
             alt = alt_route(k, v, i + salt) if (i + salt) % 3 != 2 else None
+            if isinstance(k, B) and (int(rdtype), a) in ENC_STR and (i + salt) % 2 == 0:
+                try:
+                    alt = bytes(v).decode("utf8")  # text whose UTF-8 encoding is the value
+                except UnicodeDecodeError:
+                    pass
             if alt is None:
                 kw[a] = k.from_tree(v)
             else:
@@ -575,8 +589,10 @@ def bad_caa(rng, vals, env):
 
 
 def g_floatstr(rng, bound):
-    r = rng.below(12)
+    r = rng.below(13)
     sign = rng.choice(["", "", "-", "+"])
+    if r == 12:
+        return (sign + rng.choice(["0", "0.", ".0", "0.0", "00", "0.000"])).encode()
     if r == 0:
         return (sign + str(rng.below(bound + 1))).encode()
     if r == 1:
@@ -1667,7 +1683,7 @@ def extra_value_oracle(ctx, case, rep, spec, cls, c, t, tree, rd, w, origin, sig
             if rd_b == rd or not (rd_b != rd):
                 ctx.fail(f"C02/eq/different-records-equal/{sigt}", f"{tname}: {case['tree']} == {dump(tw)}", rep)
     # (d) relative names are not equal to their absolute completion
-    if origin is not None and any(not n.is_absolute() for n in names_in(tree)):
+    if origin is not None and origin.is_absolute() and any(not n.is_absolute() for n in names_in(tree)):
         try:
             rd_abs = spec.build(cls, c, t, derel(tree, origin))
         except Exception:  # noqa: BLE001
@@ -1676,6 +1692,113 @@ def extra_value_oracle(ctx, case, rep, spec, cls, c, t, tree, rd, w, origin, sig
             ctx.count("val.rel-vs-abs")
             if rd_abs == rd or not (rd_abs != rd):
                 ctx.fail(f"C02/eq/relative-equals-absolute/{sigt}", f"{tname} {case['tree']}: a record with relative names == its absolute completion", rep)
+
+
+def relations_oracle(ctx, rep, a, b, sig, what):
+    """`a` and `b` are the same record obtained over two routes: every equality-like relation must say so"""
+    bad = []
+    if not (a == b) or not (b == a):
+        bad.append("== not symmetric/true")
+    if (a != b) or (b != a):
+        bad.append("!= true")
+    if not (a <= b) or not (a >= b) or not (b <= a) or not (b >= a):
+        bad.append("<=/>= not reflexive")
+    if (a < b) or (a > b) or (b < a) or (b > a):
+        bad.append("</> true")
+    if hash(a) != hash(b):
+        bad.append("hash differs")
+    if b not in {a} or a not in [b] or len({a, b}) != 1:
+        bad.append("set/list membership")
+    if bad:
+        ctx.fail(sig, f"{what}: {', '.join(bad)}", rep)
+
+
+def extra_wire_oracle(ctx, case, rep, c, t, rd, w, origin, sigt, tname):
+    """options and argument forms of the entry points, and re-use of one parser; everything is compared with the
+    record `from_wire` builds from the plain encoding (an absolute name below the origin decodes relativized)"""
+    try:
+        rd = dns.rdata.from_wire(c, t, w, 0, len(w), origin)
+    except Exception:  # noqa: BLE001
+        return  # reported by the main oracle
+    # to_wire with a compression table: still the same record when read back from offset 0
+    try:
+        wc = rd.to_wire(None, {}, origin)
+        f = io.BytesIO()
+        rd.to_wire(f, {}, origin)
+        if f.getvalue() != wc:
+            ctx.fail(f"C02/to_wire/file-differs-with-compress/{sigt}", f"{tname}: to_wire(file, compress) != to_wire(None, compress)", rep)
+        rdc = dns.rdata.from_wire(c, t, wc, 0, len(wc), origin)
+        if not (rdc == rd) or rdc.to_wire(origin=origin) != w or len(wc) > len(w):
+            ctx.fail(f"C02/to_wire/compress-table-changes-record/{sigt}", f"{tname} {w.hex()}: written with compress={{}} it reads back as another record", rep)
+    except Exception as e:  # noqa: BLE001
+        ctx.fail(f"C02/to_wire/compress-table-raises:{type(e).__name__}/{sigt}", f"{tname} {w.hex()}", rep)
+    # text mnemonics / enum members instead of numbers, keyword instead of positional arguments
+    try:
+        ct = dns.rdataclass.to_text(dns.rdataclass.RdataClass.make(c))
+        tt = dns.rdatatype.to_text(dns.rdatatype.RdataType.make(t))
+        r1 = dns.rdata.from_wire(ct, tt, w, 0, len(w), origin)
+        r2 = dns.rdata.from_wire(rdclass=dns.rdataclass.RdataClass.make(c), rdtype=dns.rdatatype.RdataType.make(t),
+                                 wire=w, current=0, rdlen=len(w), origin=origin)
+        k1 = dns.rdata.get_rdata_class(dns.rdataclass.RdataClass.make(c), dns.rdatatype.RdataType.make(t))
+        if type(r1) is not type(rd) or type(r2) is not type(rd) or not (r1 == rd) or not (r2 == rd) or type(rd) is not k1:
+            ctx.fail(f"C02/from_wire/argument-form-changes-result/{sigt}", f"{tname} {w.hex()}: text mnemonics / enum members / keywords give another record", rep)
+    except Exception as e:  # noqa: BLE001
+        ctx.fail(f"C02/from_wire/argument-form-raises:{type(e).__name__}/{sigt}", f"{tname} {w.hex()}: text mnemonics / enum members / keywords", rep)
+    # one parser, two records in a row (as a message parser does)
+    try:
+        buf = b"\x00" + w + w
+        parser = dns.wire.Parser(buf, 1)
+        out = []
+        for _ in range(2):
+            with parser.restrict_to(len(w)):
+                out.append(dns.rdata.from_wire_parser(c, t, parser, origin))
+        if parser.current != len(buf) or not (out[0] == rd) or not (out[1] == rd) or out[1].to_wire(origin=origin) != w:
+            ctx.fail(f"C02/from_wire/parser-reuse/{sigt}", f"{tname} {w.hex()}: the second record read with the same parser differs", rep)
+    except Exception as e:  # noqa: BLE001
+        ctx.fail(f"C02/from_wire/parser-reuse-raises:{type(e).__name__}/{sigt}", f"{tname} {w.hex()}", rep)
+
+
+def eval_route(ctx: Ctx, case: dict):
+    """a constructor call spelled out (argument forms the tree syntax cannot express): if it is accepted, the value
+    must survive the wire"""
+    c, t = case["cls"], case["typ"]
+    rep = {"kind": "route", "case": case}
+
+    def conv(x):
+        if "s" in x:
+            return x["s"]
+        if "b" in x:
+            return bytes.fromhex(x["b"])
+        if "n" in x:
+            return x["n"]
+        if "N" in x:
+            return dns.name.Name([bytes.fromhex(y) for y in x["N"]])
+        raise ValueError(x)
+
+    cls = dns.rdata.get_rdata_class(dns.rdataclass.RdataClass.make(c), dns.rdatatype.RdataType.make(t))
+    try:
+        rd = cls(c, t, **{k: conv(v) for k, v in case["args"].items()})
+    except (dns.exception.DNSException, ValueError, TypeError):
+        ctx.count("route.rejected")
+        return
+    ctx.count("route.accepted")
+    w = rd.to_wire()
+    try:
+        rd2 = dns.rdata.from_wire(c, t, w, 0, len(w))
+    except dns.exception.DNSException as e:
+        ctx.fail(f"C02/constructor-route/decode-rejects-own-encoding/{c}-{t}" + ("/" + case["trigger"] if case.get("trigger") else ""),
+                 f"{cls.__name__}({case['args']}) is accepted and encodes to {w.hex()}, which from_wire rejects ({type(e).__name__}: {e})", rep)
+        return
+    relations_oracle(ctx, rep, rd, rd2, f"C02/constructor-route/not-equal/{c}-{t}", f"{cls.__name__}({case['args']})")
+
+
+def gen_routes(ctx: Ctx, rng):
+    # CAA tag given as text: validated with str.isalnum (Unicode) or with bytes.isalnum (ASCII)?
+    for tag in ["issue", "Issue9", "é", "²", "issue١", "ß", "a-b", "", "a\n", "ｉｓｓｕｅ"]:
+        case = {"kind": "route", "cls": 1, "typ": 257, "trigger": "text-tag-alnum-beyond-ascii" if not tag.isascii() else "",
+                "args": {"flags": {"n": rng.choice([0, 128])}, "tag": {"s": tag}, "value": {"b": rng.bytes(3).hex()}}}
+        ctx.case(("route", 257, tag), sample=case)
+        eval_route(ctx, case)
 
 
 def eval_case(ctx: Ctx, case: dict):
@@ -1700,6 +1823,9 @@ def _eval_case(ctx: Ctx, case: dict):
     k = case["kind"]
     if k == "dispatch":
         eval_dispatch(ctx, case)
+        return
+    if k == "route":
+        eval_route(ctx, case)
         return
     c, t = case["cls"], case["typ"]
     rep = {"kind": k, "case": case}
@@ -1732,8 +1858,6 @@ def _eval_case(ctx: Ctx, case: dict):
             ctx.corr(f"c02.enc {VARIANT} {c} {t} {enc_origin(case.get('origin'))} {case['tree']}", impl, case)
         if rd is None or w is None:
             return
-        if len(w) > 65535:
-            return
         f = io.BytesIO()
         try:
             rd.to_wire(f, None, origin)
@@ -1742,6 +1866,8 @@ def _eval_case(ctx: Ctx, case: dict):
         except Exception as e:  # noqa: BLE001
             ctx.fail(f"C02/to_wire/raises/{sigt}", f"to_wire(file) raised {type(e).__name__} for {tname}", rep)
         extra_value_oracle(ctx, case, rep, spec, cls, c, t, tree, rd, w, origin, sigt, tname)
+        if len(w) % 3 == 0:
+            extra_wire_oracle(ctx, case, rep, c, t, rd, w, origin, sigt, tname)
         # ---- direct oracle: encode -> decode -> equal, byte-identical re-encoding
         try:
             rd2 = dns.rdata.from_wire(c, t, w, 0, len(w), origin)
@@ -1775,6 +1901,8 @@ def _eval_case(ctx: Ctx, case: dict):
         if expect_eq:
             if not (rd2 == rd) or (rd2 != rd):
                 ctx.fail(f"C02/wire-roundtrip/not-equal/{sigt}", f"{tname} {case['tree']}: decoded record != original", rep)
+            else:
+                relations_oracle(ctx, rep, rd, rd2, f"C02/wire-roundtrip/relations-incoherent/{sigt}", f"{tname} {case['tree']} (constructed vs decoded)")
             if modelled and not spec.custom:
                 t2 = dump(spec.tree(rd2))
                 if t2 != dump(spec.tree(rd)):
@@ -1894,7 +2022,7 @@ def _loc_over_limit(tree):
 # ------------------------------------------------------------------------------------------------
 # generation
 # ------------------------------------------------------------------------------------------------
-ORIGINS = [None, None, None, [""], ["6578616d706c65", ""], ["4578", "636f4d", ""], ["61" * 63, "62" * 63, "63" * 40, ""]]
+ORIGINS = [None, None, None, [], [""], ["6578616d706c65", ""], ["4578", "636f4d", ""], ["61" * 63, "62" * 63, "63" * 40, ""]]
 
 
 def g_origin(rng):
@@ -2056,6 +2184,7 @@ def generate(ctx: Ctx, scale, rng):
         gen_type(ctx, rng, (ANY, key[1]), GENERIC, int(3 * scale) + 1, int(6 * scale) + 1, generic_code=(rng.choice([other, 4, 254]), key[1]))
     gen_dispatch(ctx, rng)
     gen_history(ctx, rng)
+    gen_routes(ctx, rng)
     ctx.extra["per_type_status"] = status
     ctx.extra["types_implemented"] = len(impl)
     ctx.extra["types_modelled"] = len([k for k in impl if k in SPECS])
